@@ -36,8 +36,17 @@ func VerifC01SameBytesTwoTypesOCI() {
 	mBytes, _ := json.Marshal(mDoc)
 	m := push(ocispec.MediaTypeImageManifest, mBytes)
 	alias := push("application/octet-stream", mBytes) // the same bytes under a blob media type
+	// a chain of L manifests between the root and M (root -> S1 -> ... -> M through subject links)
+	top := m
+	for i := 0; i < verifrt.Param("L", 0); i++ {
+		sub := top
+		doc := ocispec.Manifest{Versioned: specs.Versioned{SchemaVersion: 2}, MediaType: ocispec.MediaTypeImageManifest, Config: b0,
+			Layers: []ocispec.Descriptor{}, Subject: &sub, Annotations: map[string]string{"n": string(rune('0' + i))}}
+		b, _ := json.Marshal(doc)
+		top = push(ocispec.MediaTypeImageManifest, b)
+	}
 	rootDoc := ocispec.Manifest{Versioned: specs.Versioned{SchemaVersion: 2}, MediaType: ocispec.MediaTypeImageManifest, Config: b0,
-		Layers: []ocispec.Descriptor{alias}, Subject: &m}
+		Layers: []ocispec.Descriptor{alias}, Subject: &top}
 	rootBytes, _ := json.Marshal(rootDoc)
 	root := push(ocispec.MediaTypeImageManifest, rootBytes)
 
